@@ -23,3 +23,11 @@ Proof.
   destruct ((match c with None => 1 | Some s => s end) <=? 0) eqn:E; [discriminate|].
   injection H as _ _ <-. apply Z.ltb_lt. apply Z.leb_gt in E. exact E.
 Qed.
+
+(* the derived quantities, as the source's property bodies compute them *)
+Theorem dt_generated l : dt_of l = gen_dt l.
+Proof. reflexivity. Qed.
+Theorem time_length_generated l : time_length l = gen_time_length l.
+Proof. reflexivity. Qed.
+Theorem stop_time_generated l : stop_time l = gen_stop_time l.
+Proof. reflexivity. Qed.
